@@ -281,6 +281,10 @@ theorem step_heldAt {s : State} {t i B : Nat} (hh : holder s t i = some B) (hB :
     split
     · exact h0
     · exact finishAuto_heldAt (txDelete_heldAt hhb _ t' c) hneI
+  | batchInsert t' rows =>
+    rcases batchInsert_form s t' rows with hf | ⟨T, _, _, hf⟩
+    · show HeldAt (batchInsert s t' rows).1.locks _ _ _ _ _; rw [hf]; exact h0
+    · show HeldAt (batchInsert s t' rows).1.locks _ _ _ _ _; rw [hf]; exact h0
   | createTable n nl => exact h0
   | createIndex t' c =>
     simp only [step]; unfold createIndex
@@ -383,6 +387,10 @@ theorem clk_step (s : State) (op : Op) (hnt : ∀ d, op ≠ .tick d) : Clk s (st
     all_goals first
       | exact Clk.refl s
       | exact (clk_begin s).trans ((clk_txDelete _ _ _ _).trans (clk_finishAuto _ _))
+  | batchInsert t rows =>
+    rcases batchInsert_form s t rows with hf | ⟨T, _, _, hf⟩
+    · show Clk s (batchInsert s t rows).1; rw [hf]; exact Clk.refl s
+    · show Clk s (batchInsert s t rows).1; rw [hf]; exact ⟨rfl, rfl, Nat.le_refl _⟩
   | createTable n nl => exact ⟨rfl, rfl, Nat.le_refl _⟩
   | createIndex t c =>
     simp only [step]; unfold createIndex
